@@ -269,9 +269,11 @@ OptInt(v) == IF v.t = "int" THEN Opt(TRUE, v.v) ELSE Opt(FALSE, 0)
 Slice(c, lo, hi, st, m, line) ==      \* lo/hi/st are values (NoneV when absent)
     LET h == m.heap IN
     IF ~(c.t \in {"tuple", "str", "range"} \/ IsList(c, h)) THEN R(Raise(m, "type", line), NoneV)
-    ELSE IF ~(\A x \in {lo, hi, st} : x.t \in {"int", "none"}) THEN R(Raise(m, "type", line), NoneV)
-    \* a zero step is an error; the implementation words it as a bad index
+    \* the step is looked at first (its type, then zero: an error that the implementation words as a bad
+    \* index), the bounds after it -- which matters only for which of two errors is reported
+    ELSE IF st.t \notin {"int", "none"} THEN R(Raise(m, "type", line), NoneV)
     ELSE IF st.t = "int" /\ st.v = 0 THEN R(Raise(m, "index", line), NoneV)
+    ELSE IF ~(\A x \in {lo, hi} : x.t \in {"int", "none"}) THEN R(Raise(m, "type", line), NoneV)
     ELSE IF c.t = "tuple" THEN
         (LET ps == SlicePositions(Len(c.v), OptInt(lo), OptInt(hi), OptInt(st))
          IN R(m, TupV([i \in 1..Len(ps) |-> c.v[ps[i]]])))
